@@ -67,6 +67,8 @@ Marked(k) ==         \* artifacts (both forms), a plain span, ActualText replaci
     BT, Font("F1", "12"), Op("Td", <<"72", "800">>), S1(Wd(k)), Span, S1(Wd(k + 1)), EMC, Op("Td", <<"0", "-15">>),
     Op("TL", <<"13">>), Actual(IF k % 2 = 0 THEN <<102, 105, 110, 101>> ELSE <<20013, 25991, 33>>)>>
     \o (IF k % 2 = 0 THEN <<S1(<<64, 35>>), Quote(<<36>>)>> ELSE <<Quote(<<64, 35, 36, 37, 38>>), S1(<<36>>)>>)      \* the scope opens with Tj, or with ' (a new line)
+    \* other marked-content sequences nested INSIDE the ActualText scope: the replacement stands for all of it, once
+    \o (IF k % 3 = 1 THEN <<Span, S1(<<105>>), EMC, S1(<<99, 101>>)>> ELSE IF k % 3 = 2 THEN <<Art, S1(<<72, 101>>), EMC, S1(<<108>>), Span, EMC>> ELSE <<>>)
     \o <<EMC, Op("Td", <<"0", "-15">>), S1(Wd(k + 2)), ET,
     ArtP, BT, Font("F1", "9"), Op("Td", <<"300", "30">>), S1(<<112, 97, 103, 101, 57, 57>>), ET, EMC>>
 Dense(k) ==          \* many short shows on one baseline, overlapping positions, tiny font: whatever the layout logic makes of it
